@@ -121,36 +121,45 @@ def main(p):
                 continue
             gpath, Rq, Rs, fld = canon_classes(m)
             _, robj = reply_bytes(Rs)
-            seam.log.clear()
-            seam.script = [(200, (json_format.MessageToJson(robj) if robj is not None else '{}').encode())]
-            try:
-                ret = getattr(rc, names.py_method(m))(request={fld: a['values'][m]})
-                out['calls'] += 1
-            except NotImplementedError:
-                if a['legacy']:
-                    continue      # legacy IAM methods have no http rule: nothing to transcode
-                fail(m, 'rest', 'notimplemented', 'mixin with an http rule refuses REST')
-                continue
-            except BaseException as e:
-                fail(m, 'rest', 'exception', probelib.exc_info(e))
-                continue
-            if len(seam.log) != 1:
-                fail(m, 'rest', 'call-count', len(seam.log))
-                continue
-            e = seam.log[0]
             verb, path, body, extra = a['rules'][m]
             bindings = [(verb, path, body)] + [tuple(x) for x in extra]
-            try:
-                got, bi, qkeys = http.reconstruct(Rq, bindings, e['verb'], e['url'], e['body'], False)
-                if getattr(got, fld) != a['values'][m]:
-                    fail(m, 'rest', 'request-payload', f'{fld}={getattr(got, fld)!r}')
-            except http.Mismatch as mm:
-                fail(m, 'rest', 'rest-' + mm.kind, f'{mm.detail} | {e["verb"]} {e["url"]} {e["body"]!r}')
-            if Rs is None:
-                if ret is not None:
-                    fail(m, 'rest', 'void-not-none', type(ret).__name__)
-            elif not isinstance(ret, Rs) and not hasattr(ret, 'pages'):
-                fail(m, 'rest', 'response-type', f'{type(ret).__module__}.{type(ret).__name__}, canonical {Rs.DESCRIPTOR.full_name}')
+            # one call per declared binding: the primary one and every additional binding
+            values = [a['values'][m]]
+            for xv, xp, xb in extra:
+                from mc.ref import routing
+                var, sub = http.variables(xp)[0]
+                _, toks = routing.parse_template('{x=' + sub + '}')
+                values.append(routing.instantiate(toks, star='z9', dstar='z9'))
+            for bi_expected, value in enumerate(values):
+                seam.log.clear()
+                seam.script = [(200, (json_format.MessageToJson(robj) if robj is not None else '{}').encode())]
+                tag = 'rest' if bi_expected == 0 else f'rest-binding{bi_expected}'
+                try:
+                    ret = getattr(rc, names.py_method(m))(request={fld: value})
+                    out['calls'] += 1
+                except NotImplementedError:
+                    if a['legacy']:
+                        break      # legacy IAM methods have no http rule: nothing to transcode
+                    fail(m, tag, 'notimplemented', 'mixin with an http rule refuses REST')
+                    continue
+                except BaseException as e:
+                    fail(m, tag, 'exception', probelib.exc_info(e))
+                    continue
+                if len(seam.log) != 1:
+                    fail(m, tag, 'call-count', len(seam.log))
+                    continue
+                e = seam.log[0]
+                try:
+                    got, bi, qkeys = http.reconstruct(Rq, bindings, e['verb'], e['url'], e['body'], False)
+                    if getattr(got, fld) != value:
+                        fail(m, tag, 'request-payload', f'{fld}={getattr(got, fld)!r}')
+                except http.Mismatch as mm:
+                    fail(m, tag, 'rest-' + mm.kind, f'{mm.detail} | {e["verb"]} {e["url"]} {e["body"]!r}')
+                if Rs is None:
+                    if ret is not None:
+                        fail(m, tag, 'void-not-none', type(ret).__name__)
+                elif not isinstance(ret, Rs) and not hasattr(ret, 'pages'):
+                    fail(m, tag, 'response-type', f'{type(ret).__module__}.{type(ret).__name__}, canonical {Rs.DESCRIPTOR.full_name}')
     return out
 
 
